@@ -2,6 +2,7 @@ package sim
 
 import (
 	"fmt"
+	"strings"
 )
 
 // C08Scenario: a rolling update of healthy children always completes and cleans up.
@@ -58,8 +59,40 @@ func C08Scenario() *Scenario {
 		}
 		stages := []Stage{
 			{Name: "converge", Quiet: true, MaxSteps: 3000, Policy: fair, OnBudget: budget},
-			{Name: "change", Policy: lagPolicyNoHold(t), Steps: 10 + 20*t.Pick(4, "gap"), Do: change},
 		}
+		if p.Res.Namespaced && t.Pick(5, "reincarnation") == 4 {
+			// the parent is deleted with orphan propagation, somebody clears its children
+			// away, and a parent of the same name and spec is created again: what the old
+			// one left behind (an ownerless ControllerRevision) must not stop the new one
+			w.Cfg["reincarnation"] = "true"
+			stages = append(stages, Stage{Name: "reincarnate", Quiet: true, MaxSteps: 3000, Policy: fair, OnBudget: budget, Do: func(w *World) {
+				old := p.Get(w)
+				if old == nil {
+					return
+				}
+				w.Store.Delete(p.Res, p.NS, p.Name, DeleteOpts{Propagation: "Orphan"}, "user")
+				for i := 0; i < 50 && p.Get(w) != nil; i++ {
+					ops := GCOps(w)
+					if len(ops) == 0 {
+						break
+					}
+					ops[0].Do(w)
+				}
+				if p.Get(w) != nil {
+					return // still held (a finalizer of metacontroller's): nothing to re-create
+				}
+				for _, c := range s.allChildren() {
+					if len(ownerRefsOf(c)) == 0 && strings.HasPrefix(mstr(c, "name"), p.Name+"-") {
+						w.Store.Delete(resOf(w, c), mstr(c, "namespace"), mstr(c, "name"), DeleteOpts{}, "user")
+					}
+				}
+				again := Object{"apiVersion": old["apiVersion"], "kind": old["kind"], "spec": deepCopy(old)["spec"],
+					"metadata": Object{"name": p.Name, "namespace": p.NS, "labels": metaRO(old)["labels"]}}
+				mustCreate(w.Store, p.Res, p.NS, again, "user")
+				w.Probe("c08:parent-reincarnated-over-leftover-revision")
+			}})
+		}
+		stages = append(stages, Stage{Name: "change", Policy: lagPolicyNoHold(t), Steps: 10 + 20*t.Pick(4, "gap"), Do: change})
 		if secondChange {
 			stages = append(stages, Stage{Name: "change2", Policy: fair, Steps: 5 + 10*t.Pick(4, "gap2"), Do: change})
 		}
